@@ -43,33 +43,62 @@ structure PInv (size : Nat) (p : Pool) : Prop where
 theorem pinv_new (size : Nat) : PInv size Pool.new := by
   constructor <;> simp [Pool.new, sockSum]
 
-theorem pinv_fill (size : Nat) (p : Pool) (n : Nat) (h : PInv size p) : PInv size (Pool.fill size p n).1 := by
+theorem pinv_startFill (size : Nat) (p : Pool) (n : Nat) (h : PInv size p) (hc1 : p.closed = false)
+    (hc2 : p.filling = false) (hc3 : p.conns.length < size) : PInv size (Pool.startFill size p n).1 := by
   obtain ⟨h1, h2, h3, h4⟩ := h
+  have ⟨ha, hr⟩ := h2 hc2
+  unfold Pool.startFill
+  split
+  · rename_i h0
+    constructor
+    · simp [ha, h0]; omega
+    · simp
+    · simp [ha, h0, sockSum, Att.sock] at h3 ⊢; exact h3
+    · intro hcl; simp [hc1] at hcl
+  · constructor
+    · simp [ha, mkAtts_length]; omega
+    · simp
+    · simp [ha, sockSum_mkAtts, sockSum] at h3 ⊢; exact h3
+    · intro hcl; simp [hc1] at hcl
+
+theorem pinv_fill (size : Nat) (p : Pool) (n : Nat) (h : PInv size p) : PInv size (Pool.fill size p n).1 := by
   unfold Pool.fill
   split
-  · exact ⟨h1, h2, h3, h4⟩
+  · exact h
   · rename_i hc
     simp only [Bool.or_eq_true, decide_eq_true_eq, not_or, Bool.not_eq_true, Nat.not_le] at hc
     obtain ⟨⟨hc1, hc2⟩, hc3⟩ := hc
-    have ⟨ha, hr⟩ := h2 hc2
-    split
-    · rename_i h0
-      constructor
-      · simp [ha, h0]; omega
-      · simp
-      · simp [ha, h0, sockSum, Att.sock] at h3 ⊢; exact h3
-      · intro hcl; simp [hc1] at hcl
-    · constructor
-      · simp [ha, mkAtts_length]; omega
-      · simp
-      · simp [ha, sockSum_mkAtts, sockSum] at h3 ⊢; exact h3
-      · intro hcl; simp [hc1] at hcl
+    exact pinv_startFill size p n h hc1 hc2 hc3
+
+theorem startFill_closed (size : Nat) (p : Pool) (n : Nat) : (Pool.startFill size p n).1.closed = p.closed := by
+  unfold Pool.startFill; split <;> rfl
+
+theorem pinv_pend (size : Nat) (p : Pool) (k : Nat) (h : PInv size p) : PInv size { p with pend := k } :=
+  ⟨h.bound, h.idle, h.ghost, h.closedEmpty⟩
+
+theorem pinv_fillCheck (size : Nat) (p : Pool) (h : PInv size p) :
+    PInv size (Pool.fillCheck size p) ∧ (Pool.fillCheck size p).closed = p.closed := by
+  unfold Pool.fillCheck
+  split
+  · exact ⟨h, rfl⟩
+  · exact ⟨pinv_pend size p _ h, rfl⟩
 
 theorem fill_closed (size : Nat) (p : Pool) (n : Nat) : (Pool.fill size p n).1.closed = p.closed := by
   unfold Pool.fill
   split
   · rfl
-  · split <;> rfl
+  · exact startFill_closed size p n
+
+theorem pinv_fillGo (size : Nat) (p p' : Pool) (n m : Nat) (h : PInv size p)
+    (hs : Pool.fillGo size p n = some (p', m)) : PInv size p' ∧ p'.closed = p.closed := by
+  unfold Pool.fillGo at hs
+  split at hs
+  · simp at hs
+  · injection hs with hs
+    have h1 := pinv_fill size _ n (pinv_pend size p (p.pend - 1) h)
+    have h2 := fill_closed size { p with pend := p.pend - 1 } n
+    rw [hs] at h1 h2
+    exact ⟨h1, h2⟩
 
 theorem next_ne_dial (c : Cfg) (s s' : Stage) (h : next c s = some s') : s' ≠ .dial := by
   intro hd; subst hd
@@ -301,6 +330,17 @@ theorem hinv_step (h h' : Host) (a : Act) (hi : HInv h) (hs : h.step a = some h'
     exact pinv_stop _ p q hp hq
   | err k =>
     exact route_inv h h' _ (fun p p' n hp hfp => pinv_connError _ p p' k h.nextId n hp hfp) hi hs
+  | fillCheck =>
+    simp only [Host.step] at hs
+    split at hs
+    · rename_i p hc
+      injection hs with hs; subst hs
+      refine ⟨⟨?_, hi.old, ?_⟩, rfl⟩
+      · intro q hq; simp at hq; subst hq; exact (pinv_fillCheck _ p (hi.cur p hc)).1
+      · intro hsc; have := hi.sess hsc; simp [hc] at this
+    · injection hs with hs; subst hs; exact ⟨hi, rfl⟩
+  | fillGo =>
+    exact route_inv h h' _ (fun p p' n hp hfp => pinv_fillGo _ p p' h.nextId n hp hfp) hi hs
   | pick =>
     simp only [Host.step] at hs; injection hs with hs; subst hs
     cases hsc : h.sessClosed with
